@@ -2,6 +2,9 @@ import Mdsort.Proofs.World
 import Mdsort.Proofs.WorldSingleEx
 import Mdsort.Proofs.WorldWholeEx
 import Mdsort.Proofs.WorldWholeExit
+import Mdsort.Proofs.WorldExitTop
+import Mdsort.Proofs.WorldExitEx
+import Mdsort.Proofs.WorldDryF21
 
 /-!
 # C01 - no message is lost or duplicated when an I/O operation fails
@@ -346,5 +349,97 @@ example :
       (r.2.1.dir Proofs.exCur).map (·.map (·.2)) = some [2] ∧ r.2.1.file 2 = some ⟨[], []⟩ := by
   simp only [processMessage, eval]
   decide +kernel
+
+/-! ## exit status 0 of a whole run (maildir mode, at most one fault)
+
+`C01_message_exit0` is a statement about one processing step.  For a configuration in which no message
+is processed twice it becomes a statement about the run (Proofs/WorldExit*.lean):
+
+* `Proofs.exit0_dirsOf conf`: the directories the run walks, in order, each with the rules of its block -
+  for every block and every path `p` of it (other than `/dev/stdin`): `p/new`, then `p/cur`.
+* `Proofs.exit0_Good C` for `C = ⟨env, orc, exit0_dirsOf conf, files, w⟩` (Boolean form:
+  `Proofs.exit0_goodOk`, `C01_good_check`):
+  - `nodup`: no directory is walked twice (no maildir is configured twice);
+  - `uniq0`: in every directory of the initial world the names are pairwise distinct;
+  - `listed`: the registry lists the configured maildirs completely - every name bound in a walked directory is
+    registered and is not `.` or `..`;
+  - `norev` - **the side condition on the rules**: for every walked directory `D` with rules `e` and every
+    message `n` (content `c`) registered in `D`, the directory the rules send it to
+    (`Proofs.exit0_dest env orc e D n c`: `finalDir` of the action list of its verdict, `D` itself if the rules
+    do not act) is not among the directories walked AFTER `D`.  It may be `D` itself (label, add-header, exec,
+    a flag action that keeps the subdirectory), a directory walked earlier, or a directory that is not
+    configured.  This is exactly what known finding F21 violates: `match new ... flag !new` takes a message from
+    `p/new` to `p/cur`, which is walked next - the message is found and processed a second time (witness:
+    `C06_F21_witness`), so "the place its verdict names" is not where it ends up.
+* `Proofs.exit0_Placed env orc e D n c st w'`: the verdict of the rules `e` on the file is no match and `(D, n)` is
+  bound (and registered) as before to a file that holds `c` visibly and durably; or it is an action list `ml` and
+  some entry of `finalDir ml D` is bound to a file that holds, visibly and durably, the rewritten message if `ml`
+  contains a label/add-header, and in any case the original or the rewritten bytes.  An error verdict does not
+  occur. -/
+
+/-- **Exit status 0 means every message is at its final place**: maildir mode, real run (no `-d`, no `-n`),
+rules without discard, a plan with at most one fault, no message processed twice (`exit0_Good`): if `main`
+returns 0 then EVERY message of the initial registry that lies in a configured maildir is placed as the rules
+say, in the world and in the registry `main` ends with - composed from `C01_message_exit0` through `walk`,
+the loops over paths and blocks, with the stickiness of the error flag (`C04_error_flag_inert`). -/
+theorem C01_main_exit0_partial (env : PEnv) (orc : EvalOracles) (confOk : Bool) (conf : List ConfBlock) (files : Files)
+    (input : Bytes) (w : World) (plan : Plan)
+    (hm : env.stdinMode = false) (hsyn : env.syntaxOnly = false) (hdry : env.dryrun = false)
+    (hnd : ∀ b ∈ conf, Proofs.WholeNoDiscard env orc b.expr) (hreg : Proofs.WholeReg w files)
+    (hgood : Proofs.exit0_Good ⟨env, orc, Proofs.exit0_dirsOf conf, files, w⟩)
+    (hpl : Proofs.World.SingleFault plan)
+    (h0 : (runPlan plan (mainP env orc confOk conf files input) w 0 []).1.1 = 0) :
+    ∀ D e n c, (D, e) ∈ Proofs.exit0_dirsOf conf → files.get D n = some c →
+      Proofs.exit0_Placed env orc e D n c (runPlan plan (mainP env orc confOk conf files input) w 0 []).1.2
+        (runPlan plan (mainP env orc confOk conf files input) w 0 []).2.1 :=
+  (Proofs.exit0_main_exit0 env orc confOk conf files input w plan hm hsyn hdry hnd hreg hgood hpl h0).1
+
+/-- The hypotheses on configuration, registry and world, decidably. -/
+theorem C01_good_check (C : Proofs.exit0_Ctx) (h : Proofs.exit0_goodOk C = true) : Proofs.exit0_Good C :=
+  Proofs.exit0_good_of_ok h
+
+
+/-- Non-vacuity of `C01_good_check`: `/m/cur` of the example (empty), nothing registered. -/
+example : Proofs.exit0_goodOk ⟨Proofs.exEnv, Proofs.wholeExOrc, [(Proofs.exCur, Proofs.exit0_exExpr)], [], Proofs.wholeExWorld⟩ = true := by
+  decide +kernel
+
+/-- A simple sufficient form of the side condition: every registered message of a configured maildir stays in
+its directory or is sent to a directory that is not configured at all. -/
+theorem C01_good_of_outside (C : Proofs.exit0_Ctx) (h1 : (C.dirs.map (·.1)).Nodup) (h2 : Proofs.exit0_uniqueOk C.w0 = true)
+    (h3 : Proofs.exit0_listedOk C = true)
+    (h4 : ∀ D e n c, (D, e) ∈ C.dirs → C.files0.get D n = some c →
+      Proofs.exit0_dest C.env C.orc e D n c = D ∨ Proofs.exit0_dest C.env C.orc e D n c ∉ C.dirs.map (·.1)) :
+    Proofs.exit0_Good C :=
+  Proofs.exit0_good_of_outside h1 h2 h3 h4
+
+/-- Non-vacuity of `C01_main_exit0_partial`: the two-message example with `maildir "/m" { match all move "/y" }`
+(both messages are sent to `/y/new`, which is not configured): maildir mode, real run, no discard, consistent
+registry, `exit0_Good`; the fault-free plan has at most one fault. -/
+example : Proofs.exEnv.stdinMode = false ∧ Proofs.exEnv.syntaxOnly = false ∧ Proofs.exEnv.dryrun = false ∧
+    (∀ b ∈ Proofs.exit0_exConf, Proofs.WholeNoDiscard Proofs.exEnv Proofs.wholeExOrc b.expr) ∧
+    Proofs.WholeReg Proofs.wholeExWorld Proofs.wholeExFiles ∧
+    Proofs.exit0_Good ⟨Proofs.exEnv, Proofs.wholeExOrc, Proofs.exit0_dirsOf Proofs.exit0_exConf, Proofs.wholeExFiles,
+      Proofs.wholeExWorld⟩ ∧
+    Proofs.World.SingleFault Plan.none :=
+  ⟨rfl, rfl, rfl, Proofs.exit0_ex_nd, Proofs.wholeEx_reg, Proofs.exit0_ex_good, Proofs.World.singleFault_none⟩
+
+/-- The full statement without the side condition on the rules (`norev`) - kept as a named proposition:
+exit status 0 of a real run with at most one fault, rules without discard, implies that every registered
+message of a configured maildir is placed as its verdict says.  It is FALSE (F21): in
+`C06_F21_witness` the run ends with status 0 and each message has been processed twice. -/
+def C01_main_exit0 : Prop :=
+  ∀ (env : PEnv) (orc : EvalOracles) (confOk : Bool) (conf : List ConfBlock) (files : Files) (input : Bytes) (w : World) (plan : Plan),
+    env.stdinMode = false → env.syntaxOnly = false → env.dryrun = false →
+    (∀ b ∈ conf, Proofs.WholeNoDiscard env orc b.expr) → Proofs.WholeReg w files → Proofs.World.SingleFault plan →
+    (runPlan plan (mainP env orc confOk conf files input) w 0 []).1.1 = 0 →
+    ∀ D e n c, (D, e) ∈ Proofs.exit0_dirsOf conf → files.get D n = some c →
+      Proofs.exit0_Placed env orc e D n c (runPlan plan (mainP env orc confOk conf files input) w 0 []).1.2
+        (runPlan plan (mainP env orc confOk conf files input) w 0 []).2.1
+
+/-- ... refuted on a concrete run (evaluated): `maildir "/m" { match new flag "cur"  match !new move "/y" }` on the
+two-message example with `/y` present.  The verdict on `/m/new/1.h` is `flag cur` (`finalDir = /m/cur`); the
+fault-free real run ends with exit status 0, but it found the message again in `/m/cur`, where the second rule
+sent it on to `/y/cur`: no message is registered in `/m/cur` at the end. -/
+theorem C01_main_exit0_false : ¬ C01_main_exit0 := Proofs.dry_exit0_general_false
 
 end Mdsort.Props
